@@ -127,7 +127,7 @@ def c18(ctx, t0):
         ctx.build_agent()
         res.append(ctx.run_child('reload-binary', [hx, 'c18bin'], T(ctx, 600, 1800)))
     floors = {'expect:reject': (counters(res, 'expect:reject'), 100), 'expect:accept': (counters(res, 'expect:accept'), 10),
-              'accepted_sets_exercised': (counters(res, 'accepted_sets_exercised'), 30), 'reloads': (counters(res, 'reloads'), 20),
+              'accepted_sets_exercised': (counters(res, 'accepted_sets_exercised'), 30), 'reloads': (counters(res, 'reloads'), 20), 'hook_store_switches': (counters(res, 'hook_store_switches'), 2), 'hook_runs_observed': (counters(res, 'hook_runs_observed'), 1),
               'background_requests_answered': (counters(res, 'background_requests_answered'), 100), 'state_probes': (counters(res, 'state_probes'), 100),
               'signals': (counters(res, 'signals'), 8), 'client_requests_answered': (counters(res, 'client_requests_answered'), 50)}
     return finish(ctx, 'exploration', res, COMMON_ASSUME + [
@@ -305,7 +305,7 @@ def c16(ctx, t0):
         res.append(ctx.run_child('predicate', [hx, 'c16'], T(ctx, 600, 3600)))
     if want(ctx, 'histories'):
         res.append(ovl_stage(ctx, 'histories', 'TestVerifC16', T(ctx, 600, 3600)))
-    floors = {'reference_accepts': (counters(res, 'reference_accepts'), 100), 'reference_rejects': (counters(res, 'reference_rejects'), 100), 'init_calls': (counters(res, 'init_calls'), 50),
+    floors = {'reference_accepts': (counters(res, 'reference_accepts'), 100), 'reference_rejects': (counters(res, 'reference_rejects'), 100), 'init_calls': (counters(res, 'init_calls'), 50), 'large_directories': (counters(res, 'large_directories'), 20), 'concurrent_rounds': (counters(res, 'concurrent_rounds'), 50),
               'binary_commands_on_invalid_dirs': (counters(res, 'binary_commands_on_invalid_dirs'), 40), 'invariant_checks': (counters(res, 'invariant_checks'), 500), 'race_attempts': (counters(res, 'race_attempts'), 100)}
     return finish(ctx, 'exploration', res, COMMON_ASSUME + [
         'reference predicate in go/hx/c16.go with the sandwich rule for "holds a supported hash" (records without trailing newline are borderline)',
@@ -322,8 +322,8 @@ def c20(ctx, t0):
     if want(ctx, 'real-agent'):
         ctx.build_agent()
         res.append(ctx.run_child('real-agent', [hx, 'c20agent'], T(ctx, 400, 1200)))
-    if ctx.tier == 'thorough' and want(ctx, 'memcheck'):
-        res.append(ctx.run_child('memcheck', [hx, 'c20'], 3000, extra_env={'VERIF_PAMH_VALGRIND': '1'}))
+    if want(ctx, 'memcheck'):
+        res.append(ctx.run_child('memcheck', [hx, 'c20'], T(ctx, 900, 3000), extra_env={'VERIF_PAMH_VALGRIND': '1'}))
     floors = {'expected_success': (counters(res, 'expected_success'), 50), 'expected_failure': (counters(res, 'expected_failure'), 150),
               'requests_compared': (counters(res, 'requests_compared'), 100), 'class:reply-cut': (counters(res, 'class:reply-cut'), 20),
               'real_agent_cases': (counters(res, 'real_agent_cases'), 30), 'real_agent_store_accepts': (counters(res, 'real_agent_store_accepts'), 5)}
